@@ -8,7 +8,6 @@ from harness import core, pyvalues as pv
 ID = 'C24'
 TITLE = 'Everything sent to Node is marshal-safe and round-trips'
 PROPS = ['Props/C24']
-DISABLED = True
 RULE = ('values from the grammar of harness/pyvalues.py (see C22) plus nested containers to depth 40, dicts with odd and '
         'subclass keys, big integers, datetimes at the ends of the calendar in several zones; every value is encoded by the '
         'implementation and by the model, every encoded value is really marshal.dumps(.., 2)/loads-ed, decoded by both, and '
@@ -60,12 +59,12 @@ def gen_values(ctx):
   import objtypes
   rng = ctx.rng
   out = []
-  for _ in range(ctx.n(350, 5000)):
+  for _ in range(ctx.n(350, 2500)):
     out.append(pv.gen_value(rng))
-  for _ in range(ctx.n(60, 1000)):
+  for _ in range(ctx.n(60, 500)):
     out.append(pv.gen_datetime(rng))
     out.append(pv.gen_date(rng))
-  for _ in range(ctx.n(25, 400)):
+  for _ in range(ctx.n(25, 150)):
     out.append(nest(pv.gen_value(rng, 2), rng.choice([3, 8, 20, 40]), rng.randrange(4)))
   fixed = [
     {pv.StrSub('a'): 1}, {'a': {pv.StrSub('b'): [1]}}, [{pv.StrSub(''): None}], {1: 2}, {None: 1}, {(1, 2): 3}, {'a': 1, 2: 'b'},
@@ -240,7 +239,7 @@ def correspond(ctx):
   def add_encode(v, second):
     try:
       b = pv.Builder()
-      b.collect(v)
+      b.collect(v, encode_only=True)
       e = objtypes.encode_object(v)
       lit = lit_case(b, b.val(v), b.tables(NEED), b.val(e))
     except RecursionError:
@@ -361,10 +360,10 @@ def correspond_bundles(ctx, vals):
           if isinstance(cols, dict) and hasattr(a, 'row_ids'):
             for col in cols.values():
               for x in col:
-                b.collect(x)
+                b.collect(x, encode_only=True)
           elif isinstance(cols, dict):
             for x in cols.values():
-              b.collect(x)
+              b.collect(x, encode_only=True)
       out = bd.to_json_obj()
       cases.append('(%s, %s, %s)' % (bundle_lit(b, bd), b.tables(NEED), b.val(out)))
       meta.append(out)
